@@ -531,6 +531,48 @@ pub fn compile_matrix(full: bool) -> Vec<String> {
     out
 }
 
+/// Capture groups that are written by a delegate (easy group next to a hard element) or by
+/// VM saves, inside counted and unbounded repeats whose continuation fails, with a
+/// fall-back alternative: the slots of an abandoned attempt must be restored (seed S6-C03).
+pub fn capture_restore(with_hard: bool) -> Vec<String> {
+    let bodies = ["(a)", "(a|b)", "(a)(b)?", "(a?)"];
+    let hards: &[&str] = if with_hard { &["", "(?=)", "\\b?", "(?!c)"] } else { &[""] };
+    let quants = ["{2}", "{2,}", "+", "{1,2}"];
+    let tails = ["b", "c"];
+    let falls = ["|a", "|aa", ""];
+    let mut out = Vec::new();
+    for b in bodies.iter() {
+        for h in hards.iter() {
+            for q in quants.iter() {
+                for t in tails.iter() {
+                    for f in falls.iter() {
+                        out.push(std::format!("(?:{}{}){}{}{}", b, h, q, t, f));
+                    }
+                }
+            }
+        }
+    }
+    out
+}
+
+/// Commits that merge many log entries although the text is short: counted repeats over
+/// groups that can match empty, inside an atomic scope whose continuation fails (seed
+/// S7-C20: a merge that is only wrong beyond 32 entries).
+pub fn wide_cut() -> Vec<String> {
+    let mut out = Vec::new();
+    for n in [12usize, 17, 20].iter() {
+        out.push(std::format!("(?>(?:()|x){{{}}})!|", n));
+        out.push(std::format!("(?>(?:(a?)|x){{{}}})!|a", n));
+        out.push(std::format!("(?:(?>(?:(a?)(b?)|x){{{}}})c|a)", n));
+        out.push(std::format!("(?>(?:(?=(a?))|x){{{}}})!|a?", n));
+        out.push(std::format!("(?=(?:(a?)|x){{{}}})!|a", n));
+        out.push(std::format!("(?((?:(a?)|x){{{}}})!|a)", n));
+    }
+    out.push("(?>(()|x)(()|x)(()|x)(()|x)(()|x)(()|x)(()|x)(()|x)(()|x)(()|x))!|".to_string());
+    out.push("(?>(?:(a?)|x)+?(?:(a?)|x){12})!|a".to_string());
+    out
+}
+
 /// Alternations over words of different lengths in every order, followed by a
 /// continuation that can force the engine back into the alternation.
 pub fn alt_order(common_syntax: bool) -> Vec<String> {
